@@ -1845,7 +1845,9 @@ def check_c19(ctx):
             back = ok.get("back", {})
             if "err" in back:
                 viol(v, "fromBytes_of_toBytes_throws", back)
-            elif not back.get("equals"):
+            elif not back.get("equals") and back.get("cls") == ok.get("cls"):
+                # (a parent-level value whose payload happens to parse as a child comes back as that child:
+                # dispatch is judged by the javaparse vectors, not here)
                 viol(v, "fromBytes_of_toBytes_not_equal", back)
         else:
             outs = v["outcomes"]
@@ -1880,7 +1882,207 @@ def check_c19(ctx):
     return rep.finish()
 
 
+# ------------------------------------------------------------------------------ C07 all backends agree
+def check_c07(ctx):
+    """PdlChannel: every backend writes every boundary value; every backend reads what every other wrote;
+    all parsers are fed every TLC stimulus string.  Results are compared pairwise and with the value written."""
+    rep = Report("C07", ctx.tier, ctx.seed)
+    units = make_units(kit.build(ctx.tier))
+    compile_units(ctx.driver(), units, ["analyze", "rust", "python", "cxx"])
+    jobs = [dict(d=k + 1, type="", anc="", mode="info", n=0) for k, u in enumerate(units)]
+    _, info = run_jobs(ctx, units, jobs, rep, tag="c07info")
+    common = [u for u in units if u.status == "accepted" and all(info.get(u.name, {}).get(b) for b in ("rust", "py", "cxx", "java"))]
+    log("C07: %d of %d units inside the intersection of the four supported classes" % (len(common), len(units)))
+    cunits = common
+    for i, u in enumerate(cunits):
+        pass
+    rbins = build_rust_harness(units)       # same shard layout as the other checks: no rebuild churn
+    pmods = prepare_python(ctx, cunits)
+    cbins = build_cxx(cunits, info, "asan")
+    jmods, jcls = build_java(ctx, cunits, info)
+    pos = {u.name: k + 1 for k, u in enumerate(units)}
+    jobs = []
+    for u in cunits:
+        if not (u.name in rbins and u.name in pmods and u.name in cbins and u.name in jmods):
+            continue
+        for t in u.types():
+            jobs.append(dict(d=pos[u.name], type=t, anc="", mode="enc", n=0))
+            if not u.decl(t)["parent"]:
+                jobs.append(dict(d=pos[u.name], type=t, anc="", mode="dec", n=0))
+    vecs, _ = run_jobs(ctx, units, jobs, rep)
+    encs = [v for v in vecs if v["k"] == "enc" and not v["faults"]]
+    decs = [v for v in vecs if v["k"] == "dec" and "Unsupported" not in v["faults"] + v["full"]]
+
+    # ---- stage 1: every backend serializes every value
+    def ser_requests(vs):
+        rq = {"rust": [], "py": [], "cxx": [], "java": []}
+        for i, v in enumerate(vs):
+            u, t = v["unit"], v["type"]
+            val = node_to_native(v["val"])
+            rq["rust"].append(dict(rid=i, desc=u.name, type=t, op="encode", value=val, prefix=[]))
+            rq["py"].append(dict(rid=i, mod=pmods[u.name], type=t, op="serialize", value=val, root=v["root"]))
+            binp, us, schemas = cbins[u.name]
+            params = us.get(t, {}).get("build")
+            if params is not None:
+                try:
+                    if params == "struct":
+                        flat, field, one = cxxgen.flatten(val, schemas[t], schemas)
+                        one("struct", t, val)
+                    else:
+                        flat = cxxgen.flatten_args(val, params, schemas[t], schemas)
+                    rq["cxx"].append(dict(rid=i, bin=binp, line="%d B %s %s" % (i, t, " ".join(map(str, flat)))))
+                except KeyError:
+                    pass
+            rq["java"].append(dict(rid=i, line="%d B %s %s %s" % (i, jmods[u.name], t, " ".join(java_tokens(val)))))
+        return rq
+
+    rq = ser_requests(encs)
+    ob = {"rust": run_rust(rbins, rq["rust"], tag="c07r"), "py": run_py(rq["py"], tag="c07p"),
+          "cxx": run_cxx(cbins, rq["cxx"], tag="c07c"), "java": run_java(jcls, rq["java"], tag="c07j")}
+
+    def ser_bytes(b, o):
+        r = (o or {}).get("r", {})
+        if not isinstance(r, dict):
+            return None
+        if b == "rust":
+            x = r.get("vec")
+            return x.get("ok") if isinstance(x, dict) else None
+        if b == "py":
+            return (r.get("ok") or {}).get("bytes") if isinstance(r.get("ok"), dict) else None
+        if b == "cxx":
+            return list(bytes.fromhex(r["bytes"])) if "bytes" in r else None
+        if b == "java":
+            return list(bytes.fromhex(r["ok"]["bytes"])) if isinstance(r.get("ok"), dict) and "bytes" in r["ok"] else None
+
+    BACK = ["rust", "py", "cxx", "java"]
+    written = []      # (vector, backend, bytes)
+    for i, v in enumerate(encs):
+        outs = {b: ser_bytes(b, ob[b].get(i)) for b in BACK}
+        rep.validated()
+        got = {b: x for b, x in outs.items() if x is not None}
+        for a in BACK:
+            for b in BACK:
+                if a < b and a in got and b in got and got[a] != got[b]:
+                    rep.violation("C07|%s~%s|%s|%s|serialize_differs" % (a, b, v["unit"].name, v["type"]),
+                                  {"desc": v["unit"].desc, "pdl": v["unit"].src, "type": v["type"],
+                                   "stimulus": {"value": node_to_native(v["val"])},
+                                   "expected": {"reference": hexs(v["bytes"])},
+                                   "observed": {k: hexs(x) for k, x in got.items()}})
+        for b in BACK:
+            rr = (ob[b].get(i) or {}).get("r")
+            if outs[b] is None:
+                if isinstance(rr, dict) and "unconstructible" in rr:
+                    continue
+                if b == "cxx" and ob[b].get(i) is None:
+                    continue        # no builder for this type in the C++ API (nothing was asked)
+                rep.violation("C07|%s|%s|%s|serialize_fails" % (b, v["unit"].name, v["type"]),
+                              {"desc": v["unit"].desc, "pdl": v["unit"].src, "type": v["type"],
+                               "stimulus": {"value": node_to_native(v["val"])}, "observed": rr})
+            elif outs[b] == v["bytes"] and v.get("rt"):
+                # channel law: only for round-trippable values, and for what was written correctly
+                # (a wrong encoding is the writer's violation, reported above as serialize_differs)
+                written.append((v, b, outs[b]))
+        if i % 499 == 1:
+            rep.sample({"desc": v["unit"].name, "type": v["type"], "value": node_to_native(v["val"]),
+                        "bytes_by_backend": {k: hexs(x) for k, x in got.items()}})
+
+    # ---- stage 2: every backend parses (a) what the others wrote, (b) every stimulus string
+    items = []      # (unit, type, bytes, origin, written value or None)
+    seen = set()
+    for (v, b, by) in written:
+        key = (v["unit"].name, v["type"], tuple(by))
+        if key in seen:
+            continue
+        seen.add(key)
+        items.append((v["unit"], v["type"], by, "written_by_" + b, node_to_native(v["val"])))
+    for v in decs:
+        key = (v["unit"].name, v["type"], tuple(v["bytes"]))
+        if key in seen:
+            continue
+        seen.add(key)
+        items.append((v["unit"], v["type"], v["bytes"], ":".join(map(str, v["label"])), None))
+    prq = {"rust": [], "py": [], "cxx": [], "java": []}
+    for i, (u, t, by, org, val) in enumerate(items):
+        root = u.chain(t)[0]["id"]
+        prq["rust"].append(dict(rid=i, desc=u.name, type=t, op="decode", bytes=by))
+        binp, us, schemas = cbins[u.name]
+        if us.get(t, {}).get("parse"):
+            prq["cxx"].append(dict(rid=i, bin=binp, line="%d P %s %s" % (i, t, hexs(by) or "-")))
+        prq["py"].append(dict(rid=i, mod=pmods[u.name], type=root, op="parse", bytes=by))
+        prq["java"].append(dict(rid=i, line="%d P %s %s %s" % (i, jmods[u.name], root, hexs(by) or "-")))
+    po = {"rust": run_rust(rbins, prq["rust"], tag="c07r2"), "py": run_py(prq["py"], tag="c07p2"),
+          "cxx": run_cxx(cbins, prq["cxx"], tag="c07c2"), "java": run_java(jcls, prq["java"], tag="c07j2")}
+
+    def parsed(b, o, u, t):
+        """-> (accepted?, value dict with normalised keys or None)"""
+        r = (o or {}).get("r", {})
+        if not isinstance(r, dict) or "abnormal" in (o or {}) or "abnormal" in r:
+            if b == "java" and isinstance(r, dict) and r.get("abnormal") in ("OutOfMemoryError", "StackOverflowError"):
+                return (False, None)
+            return ("abnormal", None)
+        if b == "rust":
+            f = r.get("decode_full", {})
+            return (True, norm_keys(f["ok"])) if "ok" in f else (False, None)
+        if b == "cxx":
+            if (u.decl(t) or {}).get("kind") == "struct":
+                return (bool(r.get("valid")) and r.get("rest") == 0, norm_keys(r.get("val")))
+            return (bool(r.get("valid")), norm_keys(r.get("val")))
+        if b == "py":
+            return (True, norm_keys(r["ok"]["val"])) if "ok" in r else (False, None)
+        if b == "java":
+            return (True, r["ok"]["val"]) if "ok" in r else (False, None)
+
+    def common_equal(a, b):
+        """values agree on every field both carry"""
+        if isinstance(a, dict) and isinstance(b, dict):
+            return all(common_equal(a[k], b[k]) for k in a if k in b and k != "payload")
+        if isinstance(a, list) and isinstance(b, list):
+            return len(a) == len(b) and all(common_equal(x, y) for x, y in zip(a, b))
+        return a == b
+
+    for i, (u, t, by, org, val) in enumerate(items):
+        res = {b: parsed(b, po[b].get(i), u, t) for b in BACK if po[b].get(i) is not None}
+        rep.validated()
+        is_root = not u.decl(t)["parent"]
+        for b, (acc, pv) in res.items():
+            if acc == "abnormal":
+                rep.violation("C07|%s|%s|%s|parse_abnormal|%s" % (b, u.name, t, org.split(":")[0]),
+                              {"desc": u.desc, "pdl": u.src, "type": t, "stimulus": {"bytes": hexs(by)}, "origin": org,
+                               "observed": po[b].get(i)})
+            elif val is not None:
+                # channel law: what A wrote is read back unchanged by B
+                if not acc:
+                    rep.violation("C07|%s|%s|%s|rejects_%s" % (b, u.name, t, org),
+                                  {"desc": u.desc, "pdl": u.src, "type": t, "stimulus": {"bytes": hexs(by), "value": val},
+                                   "origin": org, "observed": po[b].get(i, {}).get("r")})
+                elif b in ("rust", "cxx") or is_root:
+                    if not common_equal(norm_keys(val), pv):
+                        rep.violation("C07|%s|%s|%s|reads_differently_%s" % (b, u.name, t, org),
+                                      {"desc": u.desc, "pdl": u.src, "type": t,
+                                       "stimulus": {"bytes": hexs(by), "value": val}, "origin": org, "observed": pv})
+        # pairwise agreement on acceptance and on common field values (same type: rust~cxx; root: all)
+        names = [b for b in BACK if b in res and res[b][0] != "abnormal" and (b in ("rust", "cxx") or is_root)]
+        for x in names:
+            for y in names:
+                if x < y:
+                    if res[x][0] != res[y][0]:
+                        rep.violation("C07|%s~%s|%s|%s|acceptance_differs|%s" % (x, y, u.name, t, org.split(":")[0] if val is None else "written"),
+                                      {"desc": u.desc, "pdl": u.src, "type": t, "stimulus": {"bytes": hexs(by)}, "origin": org,
+                                       "observed": {x: res[x][0], y: res[y][0]}})
+                    elif res[x][0] and not common_equal(res[x][1], res[y][1]):
+                        rep.violation("C07|%s~%s|%s|%s|values_differ|%s" % (x, y, u.name, t, org.split(":")[0] if val is None else "written"),
+                                      {"desc": u.desc, "pdl": u.src, "type": t, "stimulus": {"bytes": hexs(by)}, "origin": org,
+                                       "observed": {x: res[x][1], y: res[y][1]}})
+    rep.notes["units_in_common_class"] = len(common)
+    rep.notes["values_written"] = len(encs)
+    rep.notes["byte_strings_read"] = len(items)
+    rep.assumptions += ["descriptions restricted to the intersection of the four Supported predicates (spec/PdlSupport.tla)",
+                        "python and java are entered through the root type; their results are compared on the fields both sides carry"]
+    return rep.finish()
+
+
 CHECKS = {p: (lambda ctx, p=p: check_rust_codec(p, ctx)) for p in CODEC_MODES}
+CHECKS["C07"] = check_c07
 CHECKS["C19"] = check_c19
 CHECKS["C14"] = check_c14
 CHECKS["C13"] = check_c13
